@@ -25,6 +25,7 @@ import (
 
 	"github.com/ipfs/go-datastore"
 	dssync "github.com/ipfs/go-datastore/sync"
+	"github.com/libp2p/go-libp2p/core/host"
 	"github.com/libp2p/go-libp2p/core/network"
 	"github.com/libp2p/go-libp2p/core/peer"
 	"github.com/libp2p/go-libp2p/core/protocol"
@@ -118,7 +119,7 @@ type answer struct {
 	kind  string
 	bytes []byte // written when the first gate opens
 	fin   int    // what happens to the stream when the second gate opens
-	late  bool   // "hang": nothing is delivered before RequestTimeout has passed
+	late  bool   // "hang": the peer reads the request and stays silent; the client's stream deadline ends the read
 	fail  int    // 0 reachable; 1 no handler for the protocol; 2 unknown peer id
 }
 
@@ -234,6 +235,105 @@ func (u *universe) streamTerm(a answer) string {
 	return fmt.Sprintf("(SData %s %s)", emit.List(fs), e)
 }
 
+// ---------------------------------------------------------------- deadlines
+
+// mocknet streams ignore SetDeadline, so on plain mocknet a silent peer blocks
+// the client's read forever and the client never sees what every real
+// transport (yamux, QUIC) shows it when the deadline that sendMessage puts on
+// the stream passes: a read error of the timeout class. dlHost wraps the
+// client's host so that the streams it opens honour read deadlines in the
+// bubble's virtual time and fail with os.ErrDeadlineExceeded (a net.Error with
+// Timeout() == true), like yamux's "i/o deadline reached".
+type dlHost struct{ host.Host }
+
+func (h dlHost) NewStream(ctx context.Context, p peer.ID, pids ...protocol.ID) (network.Stream, error) {
+	s, err := h.Host.NewStream(ctx, p, pids...)
+	if err != nil {
+		return nil, err
+	}
+	return &dlStream{Stream: s}, nil
+}
+
+type readRes struct {
+	data []byte
+	err  error
+}
+
+// dlStream is used by one goroutine at a time (sendMessage).
+type dlStream struct {
+	network.Stream
+	deadline time.Time
+	pending  chan readRes // an underlying Read in flight
+	left     []byte       // data received but not yet handed out
+	err      error        // error that came with the last data
+}
+
+// The deadline sendMessage sets is the request context's; when that is the
+// caller's own deadline both expire at the same instant and which of the two the
+// client reports is a scheduling race (an error either way). The wrapper lets
+// the transport notice it a moment later, so that the order of the events is
+// the one the scenario names.
+const deadlineSlack = 10 * time.Millisecond
+
+func (s *dlStream) SetDeadline(t time.Time) error {
+	s.deadline = t
+	if !t.IsZero() {
+		s.deadline = t.Add(deadlineSlack)
+	}
+	return nil
+}
+func (s *dlStream) SetReadDeadline(t time.Time) error { return s.SetDeadline(t) }
+
+func (s *dlStream) Read(b []byte) (int, error) {
+	if len(b) == 0 {
+		return 0, nil
+	}
+	if len(s.left) > 0 {
+		n := copy(b, s.left)
+		s.left = s.left[n:]
+		return n, nil
+	}
+	if s.err != nil {
+		err := s.err
+		s.err = nil
+		return 0, err
+	}
+	if s.pending == nil {
+		ch := make(chan readRes, 1)
+		n := len(b)
+		go func() {
+			buf := make([]byte, n)
+			k, err := s.Stream.Read(buf)
+			ch <- readRes{buf[:k], err}
+		}()
+		s.pending = ch
+	}
+	var expired <-chan time.Time
+	if !s.deadline.IsZero() {
+		d := time.Until(s.deadline)
+		if d <= 0 {
+			return 0, os.ErrDeadlineExceeded
+		}
+		t := time.NewTimer(d)
+		defer t.Stop()
+		expired = t.C
+	}
+	select {
+	case r := <-s.pending:
+		s.pending = nil
+		n := copy(b, r.data)
+		s.left = r.data[n:]
+		if n > 0 {
+			s.err = r.err
+			return n, nil
+		}
+		return 0, r.err
+	case <-expired:
+		// the reader goroutine ends when the caller resets the stream (sendMessage does)
+		return 0, os.ErrDeadlineExceeded
+	}
+}
+
 // ---------------------------------------------------------------- scenario
 
 type evKind int
@@ -343,7 +443,7 @@ func run(t *testing.T, sc *scenario) (out outcome, seen []reqSeen) {
 		if err != nil {
 			t.Fatal(err)
 		}
-		ex, err := p2p.NewExchange[*vhdr.Header](client, trusted, gater,
+		ex, err := p2p.NewExchange[*vhdr.Header](dlHost{client}, trusted, gater,
 			p2p.WithNetworkID[p2p.ClientParameters](networkID),
 			p2p.WithChainID(sc.want),
 			p2p.WithRequestTimeout[p2p.ClientParameters](reqTimeout),
@@ -402,14 +502,13 @@ func run(t *testing.T, sc *scenario) (out outcome, seen []reqSeen) {
 					continue // arrived by itself, before every gated answer
 				}
 				if a.late {
-					// a hanging peer: the client sees nothing before its request timeout has passed
+					// a hanging peer stays silent: the client gives up by itself when the
+					// deadline it put on the stream (the request timeout) passes
 					if el := time.Since(start); el < reqTimeout+time.Second {
 						time.Sleep(reqTimeout + time.Second - el)
 						synctest.Wait()
-						if poll() {
-							break
-						}
 					}
+					continue // its handler is released at the end of the scenario
 				}
 				close(gate1[ev.peer])
 				synctest.Wait()
@@ -642,6 +741,7 @@ func newWorld() *world {
 		case "panic_then_T":
 			a.bytes = append(frame(ok, []byte{vhdr.PanicByte, 1}), frame(ok, enc(w.T))...)
 		case "hang":
+			// silent until the scenario is over; only then the handler resets the stream
 			a.late, a.fin = true, finReset
 		case "nohandler":
 			a.fail = 1
@@ -682,7 +782,7 @@ func (w *world) targets() []target {
 // the hanging peers (they are only released after the request timeout); an
 // optional context / stop event is inserted before the gated arrival number
 // `cut` (cut = number of gated arrivals: after all of them; -1: none).
-// shortOK reports whether the caller's deadline may lie before RequestTimeout.
+// short reports whether the caller's deadline must lie before RequestTimeout.
 func plan(answers []answer, order []int, cutKind evKind, cut int) (evs []event, shortOK bool) {
 	for i, a := range answers {
 		if a.fail != 0 {
@@ -701,6 +801,12 @@ func plan(answers []answer, order []int, cutKind evKind, cut int) (evs []event, 
 		}
 	}
 	gated := append(append([]int{}, prompt...), late...)
+	// all silent peers run into the same stream deadline at the same instant, so a
+	// context / stop event cannot be placed between them: it goes before the first
+	// silent peer or after the last one
+	if cut > len(prompt) && cut < len(gated) {
+		cut = len(prompt)
+	}
 	for k, i := range gated {
 		if k == cut {
 			evs = append(evs, event{cutKind, -1})
@@ -710,6 +816,8 @@ func plan(answers []answer, order []int, cutKind evKind, cut int) (evs []event, 
 	if cut == len(gated) {
 		evs = append(evs, event{cutKind, -1})
 	}
+	// a deadline of the caller that is to be observed before some peer's answer must
+	// lie before the request timeout (otherwise the pending peers time out first)
 	return evs, cutKind == evCtxDeadline && cut >= 0 && cut <= len(prompt)
 }
 
@@ -782,7 +890,7 @@ func TestC13(t *testing.T) {
 		"each peer's answer drawn from a byte-level grammar (valid / other valid header / other height / wrong chain / case-variant chain / " +
 		"Validate-failing / valid then reset / valid then garbage / two frames / NOT_FOUND with and without body / unknown status codes / " +
 		"empty stream / reset / truncated varint / truncated frame / length prefix only / zero-length frame / empty body / oversized length / " +
-		"1 MiB boundary frames / protobuf garbage / garbage body / body on which the codec panics (alone, under NOT_FOUND, before and after a valid frame) / random bytes / hang until the request timeout / no protocol handler / unknown peer); " +
+		"1 MiB boundary frames / protobuf garbage / garbage body / body on which the codec panics (alone, under NOT_FOUND, before and after a valid frame) / random bytes / silent until the client's stream deadline (request timeout) expires with a timeout-class read error / no protocol handler / unknown peer); " +
 		"arrival order forced by gates (all orders for <= 3 peers); caller deadline, cancel and Exchange.Stop inserted at every position; " +
 		"distinct by (target, chain config, multiset of answer kinds in arrival order, cut); non-trivial when some peer answers validly"
 	u := newUniverse()
@@ -813,7 +921,7 @@ func TestC13(t *testing.T) {
 			}
 		}
 		evs, shortOK := plan(answers, order, cutKind, cut)
-		short := shortOK && rng.Bool()
+		short := shortOK
 		sc := &scenario{get: tg.get, hash: tg.hash, height: tg.height, want: want, answers: answers, events: evs, ctxShort: short}
 		o, seen := run(t, sc)
 		ks := make([]string, 0, len(evs))
@@ -883,6 +991,22 @@ func TestC13(t *testing.T) {
 				}
 				one(tg, want, mk(k), id(1), evArrive, -1, "single")
 			}
+		}
+	}
+	// every trusted peer stays silent until the client's own stream deadline (the
+	// request timeout) ends the read, while the caller's context is still alive;
+	// and silent peers mixed with peers that answer with an error
+	for _, tg := range targets[:2] {
+		for n := 2; n <= 4; n++ {
+			ks := make([]string, n)
+			for i := range ks {
+				ks[i] = "hang"
+			}
+			one(tg, "chainA", mk(ks...), id(n), evArrive, -1, "allhang")
+			ks[0] = "notfound"
+			one(tg, "chainA", mk(ks...), id(n), evArrive, -1, "allhang")
+			ks[0] = "X"
+			one(tg, "", mk(ks...), id(n), evArrive, -1, "allhang")
 		}
 	}
 	// the 1 MiB boundary
